@@ -9,6 +9,8 @@ Hand transcription (statement by statement, `file.py:line` cited), in the style 
 * `cssutils/css/cssimportrule.py`     `_setCssText` (:98-270)
 * `cssutils/css/cssnamespacerule.py`  `_setCssText` (:105-230)
 * `cssutils/css/cssfontfacerule.py`   `_setCssText` (:66-150)
+* `cssutils/css/cssvariablesrule.py`  `_setCssText` (:87-183); `cssvariablesdeclaration.py` `_setCssText` (:95-197)
+                                      — a `ProdParser` run, modelled on a fragment (see there)
 * `cssutils/css/csspagerule.py`       `__parseSelectorText` (:148-245), `__parseMarginAndStyle` (:247-277),
                                       `_setCssText` (:283-355)
 * `cssutils/css/marginrule.py`        `_setCssText` (:133-200) — a `ProdParser` run; modelled on the fragment
@@ -51,6 +53,12 @@ def uriValue (v : Cps) : Cps :=
   | q :: _ =>
     if (q = 0x22 ∨ q = 0x27) ∧ value.getLast? = some q then ((unescQuote q value).drop 1).dropLast
     else value
+
+/-- the `name` setters of `CSSImportRule` (`cssimportrule.py:405-414`) and `CSSMediaRule`
+(`cssmediarule.py:276-284`): `if not name: name = None` — an empty name is no name -/
+def storedName : Option Cps → Option Cps
+  | some [] => none
+  | n => n
 
 /-! ## `@charset` — the encoding (`csscharsetrule.py:99-105`); whether the rule is accepted (a known codec …)
 stays with the oracle -/
@@ -383,10 +391,95 @@ def pageRule (O : Oracle) (margins : List Cps) (ts : List Tok) : PageResult :=
             | some s => if okBrace then .parsed ⟨s, parseDecls O style, ms⟩ else .stub    -- :347-355
             | none => .stub
 
+/-! ## `@variables` (`cssvariablesrule.py:87-183`, `cssvariablesdeclaration.py:95-197`)
+
+The rule has the shape of `@font-face`.  Its block is read by a `ProdParser` run
+(`vardeclaration [S? ';'? S? vardeclaration]* S? ';'?`, `vardeclaration = IDENT ':'? term`) whose `term`
+hands the shared token iterator to a `PropertyValue`, which stops before the next `;` it sees at its own level
+(`value.py:160-163`, the production `END`).  Modelled on the fragment
+`{S|COMMENT}* [ IDENT {S|COMMENT}* ":" {S|COMMENT}* value ( ";" | end ) {S|COMMENT}* ]*` where `value` is the non-empty
+stretch up to the next `;` outside brackets and the value parser accepts it; `none` outside of it (not
+modelled: stand-alone `;`, a missing `:`, a rejected value, nested at-rules). -/
+
+/-- `ProdParser` skips S tokens and moves COMMENT tokens to the `seq` (`prodparser.py:520-545`) -/
+def skipGap : List Tok → List Tok
+  | [] => []
+  | t :: ts => if t.typ = .s ∨ t.typ = .comment then skipGap ts else t :: ts
+
+theorem skipGap_le (ts : List Tok) : (skipGap ts).length ≤ ts.length := by
+  induction ts with
+  | nil => simp [skipGap]
+  | cons t ts ih => unfold skipGap; split <;> simp <;> omega
+
+/-- a variable: the name IDENT as written, the tokens of its value -/
+abbrev Var := Tok × List Tok
+
+/-- `cssvariablesdeclaration.py:166-190`: a name (compared in normalised form) that is already there is replaced
+in place (name as written now, new value), a new one is appended -/
+def varsAdd (acc : List Var) (v : Var) : List Var :=
+  if acc.any (fun e => normalize e.1.val = normalize v.1.val) then
+    acc.map (fun e => if normalize e.1.val = normalize v.1.val then v else e)
+  else acc ++ [v]
+
+/-- `CSSVariablesDeclaration.cssText = tokens`: the `var` items of the new `seq` (`none`: not modelled) -/
+def varsLoop (O : Oracle) : Nat → List Var → List Tok → Option (List Var)
+  | 0, _, _ => none
+  | fuel + 1, acc, ts =>
+    match skipGap ts with
+    | [] => some acc
+    | n :: r0 =>
+      if n.typ ≠ .ident then none
+      else
+        match skipGap r0 with
+        | [] => none
+        | c :: r1 =>
+          if ¬ (c.typ = .char ∧ c.val = vColon) then none
+          else
+            let r := upto .semicolon none (skipGap r1)
+            let value := if (r.1.getLast?.map (·.val)) = some vSemi then r.1.dropLast else r.1
+            if value = [] then none
+            else if O.valueOk value then varsLoop O fuel (varsAdd acc (n, value)) r.2
+            else none
+
+def varsDecl (O : Oracle) (ts : List Tok) : Option (List Var) := varsLoop O (ts.length + 1) [] ts
+
+inductive VarsResult where
+  /-- `ok`: the rule has the new declaration -/
+  | parsed (vars : List Var)
+  /-- not `ok`: the rule keeps the empty declaration of its constructor -/
+  | stub
+  /-- the block is outside the modelled fragment -/
+  | unmodelled
+  deriving Repr
+
+/-- `CSSVariablesRule.cssText = tokens` (`cssvariablesrule.py:113-183`; the rule itself is always `wellformed`) -/
+def variablesRule (O : Oracle) (ts : List Tok) : VarsResult :=
+  match ts with
+  | [] => .stub
+  | at_ :: rest0 =>
+    if at_.typ ≠ .variablesSym then .stub                                -- :116-121
+    else
+      let r1 := upto .blockstart none rest0                              -- :126-128
+      let ok1 := ((sepEnd r1.1).2.map (·.val)) = some vLBrace             -- :129-135
+      let okBefore := bareOk (sepEnd r1.1).1                             -- :137-147
+      let r2 := upto .blockend none r1.2                                 -- :149-151
+      match (sepEnd r2.1).2 with
+      | none => .stub                                                    -- :153-159
+      | some last =>
+        if last.val ≠ vRBrace ∧ last.typ ≠ .eof then .stub
+        else if r2.2 ≠ [] then .stub                                     -- trailing content :161-166
+        else
+          let body := if last.typ = .eof then r2.1 else (sepEnd r2.1).1  -- :168-170
+          if ok1 ∧ okBefore then
+            match varsDecl O body with                                   -- :172
+            | some vs => .parsed vs
+            | none => .unmodelled
+          else .stub
+
 /-! ## the at-rule part of the oracle -/
 
 /-- an oracle whose at-rule verdicts are the functions of this file (selector / value / media query verdicts
-are taken from `O`; `@charset`, `@variables` and top-level margin rules stay with `O`) -/
+are taken from `O`; `@charset` and top-level margin rules stay with `O`) -/
 def withAtRules (O : Oracle) : Oracle :=
   { O with
     atOk := fun t im ts =>
@@ -394,6 +487,7 @@ def withAtRules (O : Oracle) : Oracle :=
       | .importSym => (importRule O ts).isSome
       | .pageSym => true                                  -- `wellformed = property(lambda self: True)`
       | .fontFaceSym => true
+      | .variablesSym => true                             -- `cssvariablesrule.py:219`
       | _ => O.atOk t im ts
     nsInfo := nsRule }
 
